@@ -71,6 +71,7 @@ fn base_cfg(prop: &str, name: &str, price: u64, templates: Vec<(String, Ord_)>) 
         known: KnownFindings::load(),
         max_orders: 3,
         clock_step_ms: None,
+        taker: TAKER,
     }
 }
 
@@ -94,6 +95,18 @@ fn sc_order(prop: &str) -> LevelCfg {
         &[UpdKind::Cancel, UpdKind::Amend(1), UpdKind::Amend(6)],
     ));
     c.ops.extend(matches(&[1, 2, 4, 7, 1000]));
+    c
+}
+
+/// SC-reuse: a tiny alphabet explored deep - two ids that come and go (cancel, match on an emptied level, re-add
+/// under the same id): long add / cancel / re-add chains that the wider alphabets cannot reach in depth
+fn sc_reuse(prop: &str) -> LevelCfg {
+    let ts = [Tmpl::S5];
+    let mut c = base_cfg(prop, "SC-reuse", LEVEL_PRICE, tmpl_named(&ts, LEVEL_PRICE));
+    c.ops = adds(&[1, 2], ts.len());
+    c.ops.extend(upds(&[1, 2], &[UpdKind::Cancel]));
+    c.ops.extend(matches(&[2, 1000]));
+    c.absent_ops = false;
     c
 }
 
@@ -177,9 +190,14 @@ fn sc_realts(prop: &str) -> LevelCfg {
         ("IC23@1616823000001ms".to_string(), mk(1_616_823_000_001, 2)),
         ("S5@99999995000".to_string(), mk(99_999_995_000, 5)),
         ("IC23@100000005000".to_string(), mk(100_000_005_000, 2)),
+        // other time units next to each other: a later millisecond stamp, microseconds, nanoseconds (also: stamps
+        // that lie in the future of any millisecond clock)
+        ("S5@1800000000000ms".to_string(), mk(1_800_000_000_000, 5)),
+        ("IC23@1700000000000000us".to_string(), mk(1_700_000_000_000_000, 2)),
+        ("S5@1700000000000000000ns".to_string(), mk(1_700_000_000_000_000_000, 5)),
     ];
     let mut c = base_cfg(prop, "SC-realts", LEVEL_PRICE, templates);
-    c.ops = adds(&[1, 2, 3], 5);
+    c.ops = adds(&[1, 2, 3], 8);
     c.ops.extend(upds(&[1, 2, 3], &[UpdKind::Cancel]));
     c.ops.extend(matches(&[2, 7, 1000]));
     c
@@ -286,7 +304,24 @@ pub fn plans(prop: &str, tier: &str) -> Vec<Plan> {
         p.cfg.name = format!("{} under a clock advancing 1.5 s per reading", p.cfg.name);
         p.cfg.clock_step_ms = Some(1500);
         if tier == "quick" {
-            p.depth = p.depth.min(4);
+            // C11 restores every state through four paths and all continuations: one level less
+            p.depth = p.depth.min(if prop == "C11" { 3 } else { 4 });
+        } else {
+            p.depth = p.depth.saturating_sub(1).max(4);
+        }
+        v.push(p);
+    }
+    // ... and once with an incoming side whose id equals that of resting order #1 (the taker id is a label only)
+    let pick = ["SC-order", "SC-types", "SC-zero"]
+        .iter()
+        .find_map(|n| v.iter().find(|p| p.cfg.name == *n))
+        .map(|p| Plan { cfg: p.cfg.clone(), depth: p.depth });
+    if let Some(mut p) = pick {
+        p.cfg.name = format!("{} with the taker carrying the id of resting order #1", p.cfg.name);
+        p.cfg.taker = 1;
+        if tier == "quick" {
+            // C11 restores every state through four paths and all continuations: one level less
+            p.depth = p.depth.min(if prop == "C11" { 3 } else { 4 });
         } else {
             p.depth = p.depth.saturating_sub(1).max(4);
         }
@@ -410,7 +445,12 @@ fn plans_base(prop: &str, tier: &str) -> Vec<Plan> {
             ch.check.c04 = true;
             ch.check.drain = true;
             ch.variants = vec![(false, false), (true, false), (false, true), (true, true)];
+            let mut ru = sc_reuse(prop);
+            ru.check.c04 = true;
+            ru.check.drain = true;
+            ru.variants = vec![(false, false), (true, false), (false, true), (true, true)];
             vec![
+                Plan { cfg: ru, depth: d(8, 12) },
                 Plan { cfg: ch, depth: d(4, 5) },
                 plan_bk,
                 plan_zz,
@@ -525,10 +565,14 @@ fn plans_base(prop: &str, tier: &str) -> Vec<Plan> {
             let mut rt = sc_realts(prop);
             rt.check.c11 = true;
             rt.variants = vec![(false, false), (true, false), (false, true), (true, true)];
+            let mut ru = sc_reuse(prop);
+            ru.check.c11 = true;
+            ru.variants = vec![(false, false), (true, false), (false, true), (true, true)];
             vec![
                 Plan { cfg: bk, depth: d(3, 4) },
                 Plan { cfg: rt, depth: d(3, 4) },
                 Plan { cfg: o, depth: d(4, 6) },
+                Plan { cfg: ru, depth: d(8, 12) },
             ]
         }
         "C15" => {
@@ -570,9 +614,22 @@ fn plans_base(prop: &str, tier: &str) -> Vec<Plan> {
             o.check.c15 = true;
             o.stats_in_key = true;
             o.ops.extend(upds(&[1, 2, 3], &[UpdKind::Move]));
+            // a level rebuilt from a snapshot keeps counting: events after a rebuild are counted on top of what the
+            // rebuilt level reports; timestamps in other units / in the future of any millisecond clock
+            let mut rs = sc_reuse(prop);
+            rs.name = "SC-reuse with rebuilds".into();
+            rs.check.c15 = true;
+            rs.stats_in_key = true;
+            rs.ops.extend(upds(&[1, 2], &[UpdKind::Move]));
+            rs.ops.extend([Op::Restore(Path::FromSnapshot), Op::Restore(Path::SnapJson), Op::Restore(Path::Serde), Op::Restore(Path::Text)]);
+            let mut rt = sc_realts(prop);
+            rt.check.c15 = true;
+            rt.stats_in_key = true;
             vec![
                 Plan { cfg: a, depth: d(4, 6) },
                 Plan { cfg: o, depth: d(5, 7) },
+                Plan { cfg: rs, depth: d(6, 8) },
+                Plan { cfg: rt, depth: d(3, 4) },
             ]
         }
         _ => vec![],
@@ -601,7 +658,7 @@ pub fn emit_unit_test(cfg: &LevelCfg, hist: &[u16], message: &str) -> String {
                 t.push_str(&format!("    {level_var}.add_order(\"{o}\".parse::<OrderType<()>>().unwrap());\n"));
             }
             Op::Match(q) => {
-                t.push_str(&format!("    let r = {level_var}.match_order({q}, OrderId::from_u64({}), &generator);\n    println!(\"{name} -> remaining={{}} complete={{}} fills={{:?}} filled={{:?}}\", r.remaining_quantity, r.is_complete, r.transactions.as_vec().iter().map(|t| (t.maker_order_id.to_string(), t.quantity)).collect::<Vec<_>>(), r.filled_order_ids);\n", TAKER));
+                t.push_str(&format!("    let r = {level_var}.match_order({q}, OrderId::from_u64({}), &generator);\n    println!(\"{name} -> remaining={{}} complete={{}} fills={{:?}} filled={{:?}}\", r.remaining_quantity, r.is_complete, r.transactions.as_vec().iter().map(|t| (t.maker_order_id.to_string(), t.quantity)).collect::<Vec<_>>(), r.filled_order_ids);\n", cfg.taker));
             }
             Op::Upd(kind, id) => {
                 let u = cfg.update_of(kind, id);
